@@ -8,6 +8,9 @@ import inspect
 
 from six import iteritems
 
+# inspect.getargspec was removed in Python 3.11
+_getargspec = getattr(inspect, "getfullargspec", None) or inspect.getargspec
+
 
 def add_int_enums_to_docstring(enum):
     """Decorator for IntEnum which re-writes the documentation string so that
@@ -109,7 +112,7 @@ def add_signature_to_docstring(f, include_self=False, kw_only_args={}):
     """
 
     def decorate(f_wrapper):
-        args, varargs, keywords, defaults = inspect.getargspec(f)
+        args, varargs, keywords, defaults = _getargspec(f)[:4]
 
         # Simplifies later logic
         if defaults is None:
